@@ -440,7 +440,9 @@ where
                                 this.waiter.set(Waiting::Idle(waiter));
                             }
                         } else {
-                            // The pool itself is gone.
+                            // The pool itself is gone. The connector stays unused,
+                            // also when this checkout is dropped.
+                            *this.role = CheckoutRole::Standby { multiplex };
                             return Poll::Ready(Err(ConnectorError::Unavailable));
                         }
                     }
